@@ -166,17 +166,17 @@ theorem rot_of_rows (r1 r2 r3 : V3 R)
 theorem rot_z (c s : R) (h : c * c + s * s = 1) :
     Rot (matMul3 (⟨c, -s, 0⟩ : V3 R) ⟨s, c, 0⟩ ⟨0, 0, 1⟩) := by
   apply rot_of_rows <;> first
-    | (apply V3.ext' <;> simp <;> first | linear_combination h | ring)
+    | (apply V3.ext' <;> simp <;> linear_combination h)
     | (simp <;> first | linear_combination h | ring)
 theorem rot_x (c s : R) (h : c * c + s * s = 1) :
     Rot (matMul3 (⟨1, 0, 0⟩ : V3 R) ⟨0, c, -s⟩ ⟨0, s, c⟩) := by
   apply rot_of_rows <;> first
-    | (apply V3.ext' <;> simp <;> first | linear_combination h | ring)
+    | (apply V3.ext' <;> simp <;> linear_combination h)
     | (simp <;> first | linear_combination h | ring)
 theorem rot_y (c s : R) (h : c * c + s * s = 1) :
     Rot (matMul3 (⟨c, 0, s⟩ : V3 R) ⟨0, 1, 0⟩ ⟨-s, 0, c⟩) := by
   apply rot_of_rows <;> first
-    | (apply V3.ext' <;> simp <;> first | linear_combination h | ring)
+    | (apply V3.ext' <;> simp <;> linear_combination h)
     | (simp <;> first | linear_combination h | ring)
 
 /-- rotations compose -/
